@@ -135,6 +135,13 @@ func c07(c *q.Ctx) {
 		c.Guard(xs, q.Cond{Canon: "(len(p1.XuperSign.PublicKeys) == len(*p1.Initiator*))", Sense: false}, q.ToSuccess(), q.Opt{})
 		c.ArgIs(xs, "VerifyXuperSignature", 1, "p1.XuperSign.Signature", 1, "the aggregated signature of the transaction")
 		c.ArgIs(xs, "VerifyXuperSignature", 2, "p2", 1, "over the digest passed in")
+		// one signature marks EVERY listed address as having signed only if it binds every listed key: the crypto
+		// library checks a plain ECDSA/Schnorr signature against the first key alone and a ring signature proves
+		// that one unnamed key signed; only a multi-signature covers all of them
+		c.OnlyUnder(xs, q.ToSuccess(), []q.Cond{
+			{Canon: "(1 < len(*GetEcdsaPublicKeyFromJsonStr(*p1.XuperSign.PublicKeys[])#0*))", Sense: false},
+			{Canon: "(\"MultiSig\" == *.SigType)", Sense: true},
+		}, "several listed keys are all marked as signers only behind a multi-signature")
 	}
 	vu := c.Fn(st + "(*State).verifyUTXOPermission")
 	if vu != nil {
